@@ -7,7 +7,8 @@ func init() {
 	vRegister("vC04_segmented", vC04_segmented)
 	vRegister("vC04_nonblocking", vC04_nonblocking)
 	vRegister("vC04_fair", vC04_fair)
-	vRegister("vC04_dbg", vC04_dbg)
+	vRegister("vC04_boundedPriority", vC04_boundedPriority)
+	vRegister("vC04_priorityOrder", vC04_priorityOrder)
 }
 
 var vC04_got [6]int
@@ -125,18 +126,51 @@ func vC04_nonblocking() {
 	}
 }
 
-func vC04_dbg() {
-	m := NewNonBlockingBoundedMailbox(2)
+// smaller tag = higher priority
+func vC04_prio(m1, m2 any) bool { return m1.(int) < m2.(int) }
+
+// bounded priority mailbox, capacity 1, two concurrent producers and no consumer: never more than capacity is accepted
+func vC04_boundedPriority() {
+	m := NewBoundedPriorityMailbox(1, vC04_prio)
+	vC04_n = 0
 	vC04_acc = [4]bool{}
-	vGo("p1", func() { vC04_enq(m, 11, nil); vC04_enq(m, 12, nil); vC04_enq(m, 21, nil) })
+	vGo("p1", func() { vC04_enq(m, 11, nil) })
+	vGo("p2", func() { vC04_enq(m, 21, nil) })
 	vRun()
 	vAssume(vAllDone())
-	vAssert(vC04_acc[0] && vC04_acc[1], "DBG first two accepted")
-	vAssert(!vC04_acc[2], "DBG third rejected")
-	v := m.Dequeue()
-	vAssert(v != nil, "DBG first out non-nil")
-	if v != nil {
-		vAssert(v.message.(int) == 11, "DBG first out is 11")
+	acc := 0
+	if vC04_acc[0] {
+		acc++
 	}
+	if vC04_acc[2] {
+		acc++
+	}
+	vAssert(acc <= 1, "a bounded mailbox never accepts more than its capacity")
+	vAssert(acc >= 1, "a bounded mailbox rejects only when it is full")
+	vAssert(m.Len() == int64(acc), "Len equals the number of accepted, undequeued messages")
+	for i := 0; i < 3; i++ {
+		if m.IsEmpty() {
+			break
+		}
+		vC04_deq(m)
+	}
+	vAssert(vC04_n == acc, "every accepted message is dequeued exactly once (bounded priority)")
+	vCover("end")
+}
+
+// priority order (sequential): messages come out by priority, not arrival
+func vC04_priorityOrder() {
+	m := NewBoundedPriorityMailbox(3, vC04_prio)
+	a, b, c := vNondetInt("a"), vNondetInt("b"), vNondetInt("c")
+	vAssume(a >= 0 && a < 100 && b >= 0 && b < 100 && c >= 0 && c < 100 && a != b && b != c && a != c)
+	_ = m.Enqueue(vC04_ctx(a))
+	_ = m.Enqueue(vC04_ctx(b))
+	_ = m.Enqueue(vC04_ctx(c))
+	vAssert(m.Enqueue(vC04_ctx(7)) != nil, "the fourth message is rejected at capacity 3")
+	x := m.Dequeue().message.(int)
+	y := m.Dequeue().message.(int)
+	z := m.Dequeue().message.(int)
+	vAssert(x < y && y < z, "messages are dequeued in priority order")
+	vAssert(m.Dequeue() == nil && m.IsEmpty(), "the mailbox is empty afterwards")
 	vCover("end")
 }
